@@ -3,6 +3,9 @@
 Engine K (Kani/CBMC) over the real oal-client/src/lsp/unicode.rs and
 oal-model/src/span.rs, against a byte-level reference (kani/kern/src/refimpl.rs).
 """
+import os
+import re
+
 import kanirun
 from vcommon import Outcome, Findings, src_ref, tier
 
@@ -16,6 +19,46 @@ def harnesses():
     else:
         ks = {h: [4] for h in HS}
     return ["h_unicode::%s_k%d" % (h, k) for h in HS for k in ks[h]]
+
+
+def build_unidrv():
+    import shutil
+    import vcommon
+    from vcommon import CACHE, REPO, VERIF, run
+    d = vcommon.crate_src("drivers/unidrv")
+    lock = os.path.join(REPO, "Cargo.lock")
+    if os.path.exists(lock):
+        shutil.copyfile(lock, os.path.join(d, "Cargo.lock"))
+    tdir = os.path.join(CACHE, "drv-target")
+    rc, out, t = run(["cargo", "build", "--offline"], cwd=d, timeout=1500,
+                     extra_env={"CARGO_TARGET_DIR": tdir, "UNIDRV_REFIMPL": os.path.join(VERIF, "kani", "kern", "src", "refimpl.rs")})
+    if rc != 0:
+        raise RuntimeError("unidrv build failed:\n" + out[-3000:])
+    return os.path.join(tdir, "debug", "unidrv")
+
+
+def native_replay(o, prop="C16"):
+    """The harness conditions H1-H4 and H6 on the real unicode.rs, natively, over every text of <= N characters from
+    {a, e-acute, euro, an astral character, LF, CRLF}: validates the Kani model on every run and decides when a harness does not
+    finish. -> (lines describing deviations, replay dir)"""
+    from vcommon import run, new_replay_dir
+    n = 7 if tier() == "thorough" else 6
+    rdir = new_replay_dir(prop, "native")
+    try:
+        drv = build_unidrv()
+    except Exception as exn:
+        o.inconc("native replay driver: %s" % str(exn)[-200:])
+        return [], rdir
+    rc, out, t = run([drv, str(n)], timeout=900, mem_gb=4)
+    with open(os.path.join(rdir, "output.txt"), "w") as f:
+        f.write(out)
+    with open(os.path.join(rdir, "cmd"), "w") as f:
+        f.write("#!/bin/sh\ncd /verif && exec ./check %s --replay %s\n" % (prop, rdir))
+    o.extra["native_replay"] = {"alphabet": "a, U+00E9, U+20AC, U+1F609, LF, CRLF", "max_chars": n, "rc": rc, "summary": out.strip().split("\n")[-1][:80] if out.strip() else ""}
+    if rc not in (0, 1):
+        o.inconc("native replay driver died (rc=%s)" % rc)
+        return [], rdir
+    return [l[4:] for l in out.split("\n") if l.startswith("BAD ")], rdir
 
 
 def check():
@@ -41,9 +84,22 @@ def check():
                      "rustc MIR + Kani codegen + CBMC/CaDiCaL are trusted; dev-profile semantics"]
     res = kanirun.decide(o, "kern", hs, lambda h: "src/h_unicode.rs", timeout=900 if tier() == "quick" else 3000,
                          findings=Findings())
+    dev, ndir = native_replay(o)
+    if dev and not o.violations:
+        undecided = [h for h, r in res.items() if r["verdict"] not in ("SUCCESSFUL", "FAILED")]
+        if undecided:
+            o.violation("conversion deviates from the byte-level reference (native replay of the harness conditions; %s did not finish under Kani): %s" % (
+                ", ".join(h.split("::")[-1] for h in undecided[:3]), "; ".join(dev[:3])), ndir)
+        else:
+            o.oracle_only("native replay of the harness conditions deviates (%s) although every harness passes" % "; ".join(dev[:3]), ndir)
     o.samples = [{"harness": h, "verdict": r["verdict"], "covers": r["covers"], "solver_s": r.get("solver_s")} for h, r in res.items()]
     return o.finish()
 
 
 def replay(path):
+    if os.path.basename(os.path.normpath(path)).endswith("-native") or "native" in os.path.basename(os.path.normpath(path)):
+        o = Outcome("C16")
+        dev, _ = native_replay(o)
+        print("\n".join(dev) or "no deviation")
+        return 1 if dev else 0
     return kanirun.replay_saved(path)
